@@ -1,5 +1,6 @@
 """C03 -- an SDO upload delivers exactly the object's bytes for any acknowledge pattern (CoSsdo / CoSsdoScen)."""
 import common, vlib, sdo_common
+VARIANTS = {"default": (), "scen_n1": (), "n2": ("CO_SSDO_N=2",)}
 
 def run(ctx):
     import sdo_scen
